@@ -159,6 +159,17 @@ CHECKS = {
         ref="5/C16"),
 }
 
+CHECKS["C19"] = dict(
+    text="The real GeckoShell.version_strings/do_snapshot write the snapshot header for a symbolic snapshot name (arbitrary "
+         "characters) and distinct version fields, and the real GeckoSnapshot.parse reads the lines back: its 15 regular "
+         "expressions (parsed by CPython's re._parser) run in a backtracking matcher with CPython's semantics that is "
+         "itself executed on the symbolic text, so cross-talk between a name and any pattern is found by the solver. One "
+         "data element over every byte value, whole blocks concretely; traffic-log reassembly for non-uniform segment "
+         "sizes; every shipped snapshot file is parsed, loaded into the real simulator and served back unchanged.",
+    note="Bounded: names <= 3 (quick) / 4 (thorough) characters; version digits concrete; traffic-log clause for quote-free "
+         "blocks only; shipped-file clause is a concrete run. Known finding: bracketed snapshot names.",
+    ref="5/C19")
+
 CHECKS["C20"] = dict(
     text="The real engine step functions of the threaded GeckoUdpSocket executed one by one with a symbolic real-valued "
          "clock: one send step from an arbitrary queue/clock state (send iff the throttle interval has passed, head of the "
